@@ -20,6 +20,7 @@ UNITS = {
     "naming": [()],
     "listing": [()],
     "swrite": [()],
+    "cleanup": [()],
     "stdw": [("async",)],
 }
 
@@ -27,14 +28,14 @@ UNITS = {
 PROP_UNITS = {
     "C01": [("state", ()), ("handle", ()), ("swrite", ())],
     "C02": [("spec", TF), ("logger", TF), ("handle_c", TF), ("handle_d", TF)],
-    "C04": [("state", ()), ("handle", ()), ("flw", ()), ("primary", ()), ("dispatch", ("async",)), ("stdw", ("async",))],
+    "C04": [("state", ()), ("handle", ()), ("flw", ()), ("primary", ()), ("dispatch", ("async",)), ("stdw", ("async",)), ("lh", TF)],
     "C05": [("handle_a", TF), ("handle_b", TF), ("handle_b2", TF), ("handle_c", TF), ("spec", TF)],
     "C06": [("state", ()), ("timestamps", ()), ("builder", ())],
-    "C07": [("state", ()), ("listing", ())],
+    "C07": [("state", ()), ("listing", ()), ("cleanup", ())],
     "C08": [("state", ())],
     "C09": [("state", ()), ("timestamps", ())],
     "C13": [("logger", TF), ("flw", ()), ("multi", ()), ("primary", ()), ("lh", TF)],
-    "C14": [("state", ()), ("listing", ()), ("naming", ()), ("timestamps", ())],
+    "C14": [("state", ()), ("listing", ()), ("naming", ()), ("timestamps", ()), ("cleanup", ())],
     "C15": [("state", ()), ("handle", ()), ("flw", ()), ("dispatch", ("async",)), ("handle_async", ("async",)), ("swrite", ()), ("stdw", ("async",))],
     "C16": [("naming", ()), ("listing", ()), ("state", ()), ("builder", ())],
     "C18": [("state", ()), ("handle", ()), ("builder", ()), ("lh", TF)],
